@@ -307,7 +307,13 @@ class FrameSymbolVisitor(NodeVisitor):
             self.visit(target)
 
     def visit_AssignBlock(self, node: nodes.AssignBlock, **kwargs: t.Any) -> None:
-        """Stop visiting at block assigns."""
+        """Stop visiting at block assigns.  Like the filter of a filter
+        block, the names in the filter arguments are read before the
+        target is stored.
+        """
+        if node.filter is not None:
+            self.visit(node.filter, **kwargs)
+
         self.visit(node.target, **kwargs)
 
     def visit_Scope(self, node: nodes.Scope, **kwargs: t.Any) -> None:
